@@ -76,6 +76,9 @@ class BoolRaises(Exception):
         raise RuntimeError("no truth value")
 
 
+# a class whose __module__ is not a string (generated stubs, classes with the attribute cleared)
+ModuleLess = type("ModuleLess", (Exception,), {"__module__": None})
+
 RAISES = [
     None,
     lambda: ValueError("boom"),
@@ -91,6 +94,7 @@ RAISES = [
     lambda: C("c"),
     lambda: Falsy("falsy"),
     lambda: BoolRaises("boolraises"),
+    lambda: ModuleLess("moduleless"),
 ]
 REG_CLASSES = [A, B, C, Exception]
 
